@@ -200,6 +200,31 @@ def gen_memory(rng, quick):
     return cases
 
 
+def gen_memmeta(rng, quick):
+    dmg = [["trunc_all"], ["extend_ascii", 1], ["extend_ascii", 9], ["extend_bin", 1], ["extend_bin", 9], ["garbage", 40],
+           ["garbage", 0], ["double"], ["missing"]]
+    cases = []
+    for comp in [False, True] + ([] if quick else [["gzip", 3], ["lzma", 3]]):
+        for obj in [{"kind": "small", "n": 30}] + ([] if quick else [{"kind": "udict", "n": 10, "dense": True, "seed": 5}]):
+            for werror in (False, True):
+                cases.append({"kind": "memmeta", "obj": obj, "compress": comp, "werror": werror, "damage": dmg})
+    return cases
+
+
+def judge_memmeta(c, r):
+    viol, hang = [], []
+    for x in r["results"]:
+        for name, code in x["out"].items():
+            what = "Memory(compress=%s%s): metadata.json %s (%d -> %d bytes, output.pkl intact): %s" % (
+                c["compress"], ", warnings as errors" if c.get("werror") else "", x["damage"], x["orig_len"], x["len"],
+                {"call": "f(x)", "shelve": "call_and_shelve(x).get()", "check": "check_call_in_cache(x)"}[name])
+            if code.startswith("H"):
+                hang.append(what + " never returned (%s)" % code[2:])
+            elif code != "E":
+                viol.append(what + " gave %s instead of the value" % code)
+    return viol, hang
+
+
 def gen_zfile(rng, quick):
     """BinaryZlibFile-level truncations / trailers (cases for c13_impl.run_read)"""
     cases = []
@@ -485,6 +510,22 @@ def run(ctx):
         stats["recomputed"] += sum(1 for x in r["results"] if x["recomputed"])
         for x in r["results"]:
             nontrivial.add(json.dumps([c["obj"], c["compress"], x["damage"]]))
+    # ---- 5b. Memory: metadata.json damaged, output.pkl intact
+    mmcases = gen_memmeta(ctx.rng, quick)
+    stats["metadata_damages"] = 0
+    for c, r in zip(mmcases, run_watchdog(mmcases, nproc=NPROC)):
+        if "watchdog" in r:
+            hang.append(("Memory metadata case got no result: " + r["watchdog"], c))
+            continue
+        if "harness_error" in r:
+            viol.append(("harness error: " + r["harness_error"][:300], c))
+            continue
+        v, h = judge_memmeta(c, r)
+        viol += [(x, c) for x in v]
+        hang += [(x, c) for x in h]
+        stats["metadata_damages"] += len(r["results"])
+        for x in r["results"]:
+            nontrivial.add(json.dumps(["meta", c["obj"], c["compress"], c.get("werror"), x["damage"]]))
     # ---- hangs: deterministic ones (spin detector) stand; timer-based ones are retried once
     confirmed = []
     retried = 0
@@ -503,7 +544,8 @@ def run(ctx):
                           py=common.PYNP if c.get("obj", {}).get("kind") == "np" else None)[0]
         again = "watchdog" in r2 or (c["kind"] == "load" and ("H" in r2.get("codes", "") or any(
             t[1] == "H" for t in r2.get("trailers", [])))) or (c["kind"] == "memory" and any(
-                x["code"].startswith("H") for x in r2.get("results", []))) or (
+                x["code"].startswith("H") for x in r2.get("results", []))) or (c["kind"] == "memmeta" and any(
+                    v.startswith("H") for x in r2.get("results", []) for v in x["out"].values())) or (
                     c["kind"] == "readbytes" and r2.get("res") == "hang")
         if again:
             confirmed.append((what + " (confirmed with a 30 s limit)", c))
@@ -549,6 +591,7 @@ def run(ctx):
         "read_bytes_outcomes": stats["readbytes"],
         "magic_plus_junk_outcomes(R raises, V value)": stats["junk"],
         "memory_damages": stats["memory_damages"],
+        "metadata_json_damages(x3 operations)": stats["metadata_damages"],
         "memory_recomputations": stats["recomputed"],
         "numpy_cases": len(np_cases),
         "disagreements": len(dis),
@@ -595,6 +638,9 @@ def replay(ctx, path):
         bad = v + h
     elif c["kind"] == "memory":
         v, h = judge_memory(c, r)
+        bad = v + h
+    elif c["kind"] == "memmeta":
+        v, h = judge_memmeta(c, r)
         bad = v + h
     else:
         b = readbytes_oracle(c, r)
